@@ -8,7 +8,7 @@ import functools
 import itertools
 
 KINDS = ("matrix", "expr", "expr_table", "nary_expr", "func_pos", "func_kwargs", "func_partial", "unary_func",
-         "unary_expr", "unary_bool", "zeroary", "neutral", "conditional")
+         "unary_expr", "unary_bool", "zeroary", "neutral", "conditional", "nary_expr_renamed")
 
 _POOL = ["x", "y", "z", "w", "aa", "bb", "v1", "v2", "v10", "k", "m", "n1", "q", "t"]
 
@@ -86,6 +86,19 @@ def gen_spec(rng, kind=None, nvars=None, mag="small", max_dom=3, name="r0"):
             terms.append("%s * %s" % (names[0], names[-1]))
         spec["expr"] = " + ".join(terms) + " - %d" % rng.randint(0, 5)
         spec["coefs"] = coefs
+    elif kind == "nary_expr_renamed":
+        # the expression uses its own argument names: variables are bound to them by position (sorted argument names)
+        if len(vars_) < 2:
+            vars_ = draw_vars(rng, rng.randint(2, 4), max_dom)
+            spec["vars"] = vars_
+        args = rng.sample(["p", "alpha", "beta", "zz", "a1", "c", "kk", "b", "arg9", "arg10"], len(vars_))
+        coefs = [rng.randint(1, 9) * (10 ** i) for i in range(len(args))]
+        rng.shuffle(coefs)
+        terms = ["%d * %s" % (c, n) for c, n in zip(coefs, args)]
+        if rng.random() < 0.5:
+            terms.append("%s * %s" % (args[0], args[-1]))
+        spec["expr"] = " + ".join(terms) + " - %d" % rng.randint(0, 5)
+        spec["arg_names"] = args
     elif kind == "unary_bool":
         vars_[0][1] = rng.choice([[0, 1], [0, 1, 2], ["", "a"], [False, True]])
     elif kind == "neutral":
@@ -129,6 +142,9 @@ def spec_value(spec, asg):
         return 0
     if kind == "unary_bool":
         return True if asg[spec["vars"][0][0]] else False
+    if kind == "nary_expr_renamed":
+        args = sorted(spec["arg_names"])
+        return _eval_expr(spec["expr"], {args[i]: asg[v[0]] for i, v in enumerate(spec["vars"])})
     if kind in ("expr", "nary_expr", "unary_expr"):
         return _eval_expr(spec["expr"], {v[0]: asg[v[0]] for v in spec["vars"]})
     if kind == "conditional":
@@ -183,7 +199,7 @@ def build_relation(spec, cache=None):
         if any(isinstance(v, float) and (v != v or v in (float("inf"), -float("inf"))) for v in spec["table"].values()):
             lit = lit.replace("inf", "float('inf')")
         return R.constraint_from_str(name, lit, list(cache.values())), cache
-    if kind == "nary_expr":
+    if kind in ("nary_expr", "nary_expr_renamed"):
         return R.NAryFunctionRelation(ExpressionFunction(spec["expr"]), vs, name=name), cache
     if kind == "unary_expr":
         return R.UnaryFunctionRelation(name, vs[0], ExpressionFunction(spec["expr"])), cache
